@@ -815,3 +815,81 @@ def g4(proj, rep):
         n -= 1
     rep.count('G4.obligations', n)
     return n
+
+
+# ------------------------------------------------------------------------------------------------ G5
+RULES['G5'] = ('G5: in every structure-class arm of get_matrix_orthogonal_basis the returned basis and the returned complement are produced by the SAME '
+               'post-processing of (reduced space, its orthogonal complement): either one loop `for x in [space, complement]`, or two expressions '
+               'that are identical after substituting the complement for the space. An extra conj / real / transpose on one of them makes the pair '
+               'non-orthogonal (or spans the conjugate space).')
+
+
+def g5(proj, rep):
+    rep.rule('G5', RULES['G5'])
+    f = proj.func('numqi.matrix_space._misc.get_matrix_orthogonal_basis')
+    m = f.module
+    rep.touch(m)
+    n = 0
+    for st in ast.walk(f.node):
+        if not (isinstance(st, ast.Assign) and isinstance(st.targets[0], ast.Name) and st.targets[0].id == 'ret' and isinstance(st.value, ast.Tuple)
+                and len(st.value.elts) == 3):
+            continue
+        a, b, tag = st.value.elts
+        # enclosing block
+        blk = st._parent
+        body = blk.body if st in getattr(blk, 'body', []) else blk.orelse
+        local = {}
+        for s2 in body:
+            if s2 is st:
+                break
+            if isinstance(s2, ast.Assign) and isinstance(s2.targets[0], ast.Name):
+                local[s2.targets[0].id] = s2.value
+        n += 1
+        construct = f'{f.qual}[{ast.unparse(tag)[:24]}]'
+        ta, tb = ast.unparse(a).replace(' ', ''), ast.unparse(b).replace(' ', '')
+        if ta == 'ret[0]' and tb == 'ret[1]':
+            loop = next((s2 for s2 in body if isinstance(s2, ast.For) and isinstance(s2.iter, ast.List) and len(s2.iter.elts) == 2), None)
+            if loop is None:
+                rep.undecided('G5', construct, 'loop over [space, complement] not found', m, st)
+                n -= 1
+                continue
+            x, y = [ast.unparse(e) for e in loop.iter.elts]
+            ydef = local.get(y)
+            if ydef is not None and ast.unparse(ydef).replace(' ', '').startswith(f'get_vector_orthogonal_basis({x},'):
+                rep.ok('G5', construct, f'one loop body processes [{x}, {y}] with {y} = complement of {x}', m, loop)
+            else:
+                rep.violation('G5', construct, f'the loop processes [{x}, {y}] but `{y}` is not get_vector_orthogonal_basis({x}, ...)', m, loop)
+            continue
+        # explicit pair: resolve names one level
+        def resolve(e):
+            if isinstance(e, ast.Name) and e.id in local and isinstance(local[e.id], ast.Call):
+                return local[e.id]
+            return e
+        ea, eb = resolve(a), resolve(b)
+        na = [x.id for x in ast.walk(ea) if isinstance(x, ast.Name) and x.id in local]
+        nb = [x.id for x in ast.walk(eb) if isinstance(x, ast.Name) and x.id in local]
+        pair = None
+        for y in nb:
+            ydef = local.get(y)
+            if ydef is not None:
+                t = ast.unparse(ydef).replace(' ', '')
+                for x in na:
+                    if t.startswith(f'get_vector_orthogonal_basis({x},'):
+                        pair = (x, y)
+        if pair is None:
+            rep.undecided('G5', construct, f'(space, complement) pair behind `{ta}`, `{tb}` not identified', m, st)
+            n -= 1
+            continue
+        x, y = pair
+
+        class Sub(ast.NodeTransformer):
+            def visit_Name(self, node):
+                return ast.copy_location(ast.Name(id=y, ctx=node.ctx), node) if node.id == x else node
+        ea2 = Sub().visit(ast.parse(ast.unparse(ea), mode='eval').body)
+        if ast.dump(ea2) == ast.dump(ast.parse(ast.unparse(eb), mode='eval').body):
+            rep.ok('G5', construct, f'basis and complement are the same expression of {x} / {y}', m, st)
+        else:
+            rep.violation('G5', construct, f'basis `{ast.unparse(ea)[:60]}` and complement `{ast.unparse(eb)[:60]}` are post-processed differently: the returned '
+                          f'pair is not (span, orthogonal complement) of one space', m, st)
+    rep.count('G5.return_pairs', n)
+    return n
